@@ -452,15 +452,16 @@ func (fr *Frame) applyContract(fc *FuncContract, callee *ssa.Function, args []Va
 	old := st.clone()
 	env := fr.calleeEnv(fc, callee, args, recv, old, pc)
 	for i, cl := range fc.Of("requires") {
-		g, err := env.evalBool(cl.Expr)
+		gs, err := env.evalConjuncts(cl.Expr)
 		if err != nil {
 			vc.contractError(cl, err)
 			continue
 		}
-		kind := "pre"
 		tags := unionTags(fr.tags, cl.Tags)
-		vc.oblige(kind, fmt.Sprintf("%s/call/%s/pre#%d", FuncKey(fr.fn), fc.Key, i+1), tags, pc, g, pos, cl.Text)
-		vc.assume(pc, g)
+		for j, g := range gs {
+			vc.oblige("pre", fmt.Sprintf("%s/call/%s/pre#%d.%d", FuncKey(fr.fn), fc.Key, i+1, j+1), tags, pc, g, pos, cl.Text)
+			vc.assume(pc, g)
+		}
 	}
 	// frame
 	switch {
@@ -633,51 +634,88 @@ func (fr *Frame) builtinAppend(c *ssa.CallCommon, args []Val, st *State, pc T, r
 		src = args[1]
 		n = src.Ts[2]
 	}
-	newLen := vc.define("applen", SortBV(64), app("bvadd", s.Ts[2], n))
+	newLen := vc.define("applen", SortBV(64), bvAdd(s.Ts[2], n))
 	fits := app("bvsle", newLen, s.Ts[3])
-	// new backing array when it does not fit
+	// When the result does not fit, a new backing array is allocated. The model copies the whole old backing
+	// array value and keeps the offset (the position of a slice inside its backing array is not observable).
 	nb := fr.alloc(st, pc, types.NewArray(et, 0), "append", false)
 	ncap := vc.fresh("appcap", SortBV(64))
 	vc.assume(pc, app("bvsge", ncap, newLen))
-	base := Ite(fits, s.Ts[0], nb)
-	off := Ite(fits, s.Ts[1], BV(0, 64))
-	cp := Ite(fits, s.Ts[3], ncap)
-	// contents: exact for the single-element case (the common `append(s, x)` form lowers to a 1-slice), abstract otherwise
+	base := vc.define("appbase", SortRef, Ite(fits, s.Ts[0], nb))
+	cp := vc.define("appcap", SortBV(64), Ite(fits, s.Ts[3], ncap))
 	if _, isStruct := structOf(et); isStruct {
 		ms := map[string]bool{}
 		vc.E.addStructAll(ms, et, 0)
 		vc.havocClasses(st, ms)
-	} else {
-		for _, l := range vc.E.leavesOf(et) {
-			cl := vc.classSlice(et, l.Path)
-			srt := SortArr(SortRef, SortArr(SortBV(64), l.Sort))
-			h := vc.heapGet(st, cl, srt)
-			oldArr := Sel(h, s.Ts[0])
-			// result array: agrees with old contents on [off, off+len) (shifted when reallocated) and with the source on the appended part
-			na := vc.fresh("apparr", SortArr(SortBV(64), l.Sort))
-			i := vc.fresh("i", SortBV(64))
-			_ = i
-			// quantified characterisation
-			q := vc.fresh("k", SortBV(64))
-			_ = q
-			var srcAt func(k T) T
-			if srcIsStr {
-				vc.strFuns()
-				srcAt = func(k T) T { return Sel(app("gv_strdata", args[1].Ts[0]), k) }
-			} else {
-				srcArr := Sel(h, src.Ts[0])
-				srcAt = func(k T) T { return Sel(srcArr, app("bvadd", src.Ts[1], k)) }
+		return Val{Typ: rt, Ts: []T{base, s.Ts[1], newLen, cp}}
+	}
+	start := vc.define("appstart", SortBV(64), bvAdd(s.Ts[1], s.Ts[2]))
+	nConst, isConst := bvLiteral(n)
+	for _, l := range vc.E.leavesOf(et) {
+		cl := vc.classSlice(et, l.Path)
+		srt := SortArr(SortRef, SortArr(SortBV(64), l.Sort))
+		h := vc.heapGet(st, cl, srt)
+		oldArr := Sel(h, s.Ts[0])
+		var srcAt func(k T) T
+		if srcIsStr {
+			vc.strFuns()
+			srcAt = func(k T) T { return Sel(app("gv_strdata", args[1].Ts[0]), k) }
+		} else {
+			srcArr := Sel(h, src.Ts[0])
+			srcAt = func(k T) T { return Sel(srcArr, bvAdd(src.Ts[1], k)) }
+		}
+		var na T
+		if isConst && nConst <= 16 {
+			na = oldArr
+			for k := int64(0); k < nConst; k++ {
+				na = Sto(na, bvAdd(start, BV(k, 64)), srcAt(BV(k, 64)))
 			}
-			body := And(
-				Imp(And(app("bvsge", "k", BV(0, 64)), app("bvslt", "k", s.Ts[2])), Eq(Sel(na, app("bvadd", off, "k")), Sel(oldArr, app("bvadd", s.Ts[1], "k")))),
-				Imp(And(app("bvsge", "k", BV(0, 64)), app("bvslt", "k", n)), Eq(Sel(na, app("bvadd", off, app("bvadd", s.Ts[2], "k"))), srcAt("k"))),
-				Imp(fits, Imp(Or(app("bvslt", "k", s.Ts[1]), app("bvsge", "k", app("bvadd", s.Ts[1], newLen))), Eq(Sel(na, "k"), Sel(oldArr, "k")))),
-			)
-			vc.assume(pc, "(forall ((k (_ BitVec 64))) "+body+")")
-			vc.heapSet(st, cl, srt, Sto(h, base, na))
+		} else {
+			na = vc.fresh("apparr", SortArr(SortBV(64), l.Sort))
+			in := And(app("bvsge", "k", start), app("bvslt", "k", bvAdd(start, n)))
+			body := Ite(in, Eq(Sel(na, "k"), srcAt(app("bvsub", "k", start))), Eq(Sel(na, "k"), Sel(oldArr, "k")))
+			vc.assume(pc, "(forall ((k (_ BitVec 64))) (! "+body+" :pattern ((select "+na+" k))))")
+		}
+		vc.heapSet(st, cl, srt, Sto(h, base, na))
+	}
+	return Val{Typ: rt, Ts: []T{base, s.Ts[1], newLen, cp}}
+}
+
+// bvLiteral parses "(_ bvN 64)".
+func bvLiteral(t T) (int64, bool) {
+	var n int64
+	var w int
+	if _, err := fmt.Sscanf(t, "(_ bv%d %d)", &n, &w); err == nil {
+		return n, true
+	}
+	return 0, false
+}
+
+func bvAdd(a, b T) T {
+	if x, ok := bvLiteral(a); ok && x == 0 {
+		return b
+	}
+	if y, ok := bvLiteral(b); ok && y == 0 {
+		return a
+	}
+	if x, ok := bvLiteral(a); ok {
+		if y, ok := bvLiteral(b); ok {
+			return BV(x+y, 64)
 		}
 	}
-	return Val{Typ: rt, Ts: []T{vc.define("appbase", SortRef, base), off, newLen, vc.define("appcap", SortBV(64), cp)}}
+	return app("bvadd", a, b)
+}
+
+func bvSub(a, b T) T {
+	if y, ok := bvLiteral(b); ok && y == 0 {
+		return a
+	}
+	if x, ok := bvLiteral(a); ok {
+		if y, ok := bvLiteral(b); ok && x >= y {
+			return BV(x-y, 64)
+		}
+	}
+	return app("bvsub", a, b)
 }
 
 func (fr *Frame) builtinCopy(c *ssa.CallCommon, args []Val, st *State, pc T, rt types.Type) Val {
